@@ -78,3 +78,28 @@ Definition graph_of (n : nat) (flds : node -> mfields) (dkey : node -> nat) : gr
           (fun x => is_foreign_mt (f_mt (flds x)))
           (fun x => is_manifest_mt (f_mt (flds x)))
           dkey.
+
+(* removeForeignLayers (copy.go): the in-place compaction of the successor slice, as the code does it --
+   read index i, write index j <= i, `if i != j { descs[j] = desc }`, result descs[:j].  The element of
+   iteration i is read from the array as it is then (earlier writes went to indices < i). *)
+Fixpoint set_nth (l : list node) (k : nat) (v : node) : list node :=
+  match l, k with
+  | [], _ => []
+  | _ :: r, O => v :: r
+  | x :: r, S k' => x :: set_nth r k' v
+  end.
+
+Fixpoint rfl (foreign : node -> bool) (fuel i j : nat) (arr : list node) : list node :=
+  match fuel with
+  | O => firstn j arr
+  | S f =>
+      match nth_error arr i with
+      | None => firstn j arr
+      | Some d =>
+          if foreign d then rfl foreign f (S i) j arr
+          else rfl foreign f (S i) (S j) (if Nat.eqb i j then arr else set_nth arr j d)
+      end
+  end.
+
+Definition remove_foreign_inplace (foreign : node -> bool) (descs : list node) : list node :=
+  rfl foreign (length descs) 0 0 descs.
